@@ -126,6 +126,36 @@ def lastWidthRev : List Nat → Nat
 
 def lastWidth (s : Bytes) : Nat := lastWidthRev (toNats s).reverse
 
+/-- the byte chunks `utf8.DecodeRune` walks over: one chunk per rune of `decodeN`, an invalid or
+    truncated sequence is a chunk of ONE byte, kept as it is (what `strings.Split(s, "")` — `explode` —
+    hands out: `s[:size]`, no re-encoding).  Same case analysis as `decodeN`. -/
+def chunksN : List Nat → List (List Nat)
+  | [] => []
+  | a :: t =>
+    let inv : Unit → List (List Nat) := fun _ => [a] :: chunksN t
+    if a < 0x80 then [a] :: chunksN t else
+    match t with
+    | [] => [[a]]
+    | b :: t2 =>
+      match dec2 a b with
+      | some _ => [a, b] :: chunksN t2
+      | none =>
+        match t2 with
+        | [] => inv ()
+        | c :: t3 =>
+          match dec3 a b c with
+          | some _ => [a, b, c] :: chunksN t3
+          | none =>
+            match t3 with
+            | [] => inv ()
+            | d :: t4 =>
+              match dec4 a b c d with
+              | some _ => [a, b, c, d] :: chunksN t4
+              | none => inv ()
+
+/-- the UTF-8 sequences of a string, invalid bytes one by one -/
+def chunks (s : Bytes) : List Bytes := (chunksN (toNats s)).map ofNats
+
 /-- `unicode.IsSpace` -- FACT: White_Space code points of Go's unicode tables (checked by the harness
     against `unicode.IsSpace` for every code point) -/
 def isSpaceRune (r : Nat) : Bool :=
@@ -237,6 +267,20 @@ def trimStr (s : Bytes) : Bytes := trimRight spaceEncs (trimLeft spaceEncs s)
 
 /-- filterReverse on a string: `string(reversed []rune(s))` -/
 def reverseStr (s : Bytes) : Bytes := encodeRunes (decodeRunes s).reverse
+
+/-- filterFirst on a string: `for _, r := range s { return string(r) }` — the first rune RE-ENCODED
+    (an invalid first byte comes back as EF BF BD); `""` for the empty string -/
+def firstStr (s : Bytes) : Bytes :=
+  match decodeRunes s with
+  | [] => []
+  | r :: _ => encodeRune r
+
+/-- filterLast on a string: the last `DecodeLastRuneInString` bytes AS THEY ARE -/
+def lastStr (s : Bytes) : Bytes := s.drop (s.length - lastWidth s)
+
+/-- `strings.Split(s, "")` (`explode` with n = -1): the UTF-8 sequences of `s`, an invalid byte alone
+    and unchanged; no parts at all for the empty string -/
+def explodeStr (s : Bytes) : List Bytes := chunks s
 
 
 /-! ## Values -/
@@ -584,6 +628,13 @@ def splitV (v : Val) (args : List Val) : Res :=
     | [c] => .ok (.list .str false ((splitByte c s).map .str))
     | set => if set.all (· < 128) then .ok (.list .str false ((splitAny set s).map .str)) else .unsupported
   | _ => .unsupported
+
+/-- the limit argument of filterSplit as far as it is modelled: absent, or an int ≤ 0 (no limit) -/
+def splitLimitOk (args : List Val) : Bool :=
+  match args with
+  | _ :: .sc (.int l) :: _ => l ≤ 0
+  | _ :: _ :: _ => false
+  | _ => true
 
 /-- `isEmptyValue` (also the `empty` test) together with `value == nil` -/
 def isEmptyV : Val → Bool
